@@ -289,6 +289,7 @@ class Interp:
         self.module_envs: Dict[str, Dict[str, Any]] = {}
         self.missing_attr_raises = False  # stand-ins that are complete: a missing attribute is an AttributeError
         self.apply_decorators = False  # evaluate decorators that are functions of the package (opt-in)
+        self.strict_calls = False  # a call that nothing models is an analysis error, not an opaque value (opt-in)
 
     # ------------------------------------------------------------------ calling
     def bind(self, fn: FuncInfo, args: Sequence[Any], kwargs: Dict[str, Any], selfobj=None, defaults: Optional[Dict[str, Any]] = None) -> Dict[str, Any]:
@@ -341,6 +342,7 @@ class Interp:
         ev.on_name = self.on_name
         ev.on_def = self.on_def
         ev.inplace_ops = self.apply_decorators
+        ev.strict_calls = self.strict_calls
         return ev
 
     def on_def(self, ev, node: ast.FunctionDef):
@@ -825,6 +827,12 @@ class Interp:
                 args, kwargs = self.args_of(ev, c)
                 return self._native_call(target, args, kwargs, c)
             if isinstance(target, self.native) and callable(target):
+                args, kwargs = self.args_of(ev, c)
+                return self._native_call(target, args, kwargs, c)
+            import types as _types
+
+            if isinstance(target, (_types.MethodType, _types.BuiltinMethodType)) and isinstance(getattr(target, "__self__", None), self.native + (set, dict, list)):
+                # a bound method of a stand-in or of a plain container held in a local (remove = model.solver.remove)
                 args, kwargs = self.args_of(ev, c)
                 return self._native_call(target, args, kwargs, c)
         return NotImplemented
